@@ -44,7 +44,10 @@ def _install_test(src, hfile_rel, test_code):
     generated test appended (never edits /verif/kani)."""
     modfile = kanirun.MODULES[hfile_rel]
     orig = os.path.join(kanirun.KANI_DIR, modfile)
-    copy = os.path.join(os.path.dirname(src), "replay_" + modfile)
+    rdir = os.path.join(os.path.dirname(src), "replay_kani")
+    shutil.rmtree(rdir, ignore_errors=True)
+    shutil.copytree(kanirun.KANI_DIR, rdir)   # sibling files (lock_stubs.rs, ...) are referenced by relative #[path]
+    copy = os.path.join(rdir, modfile)
     with open(copy, "w") as f:
         f.write(open(orig).read())
         f.write("\n" + test_code + "\n")
@@ -57,10 +60,11 @@ def _install_test(src, hfile_rel, test_code):
 
 
 def native_replay(src, hfile_rel, test_code):
-    m = re.search(r"fn\s+(kani_concrete_playback_\w+)", test_code)
-    if not m:
+    names = re.findall(r"fn\s+(kani_concrete_playback_\w+)", test_code)
+    if not names:
         return None, "no playback test in Kani output"
-    name = m.group(1)
+    # common prefix filter runs every generated test of this harness; any failing one reproduces
+    name = os.path.commonprefix(names).rstrip("0123456789") if len(names) > 1 else names[0]
     _install_test(src, hfile_rel, test_code)
     res = {}
     for release in (False, True):
